@@ -187,7 +187,13 @@ def main():
         if not a.no_build:
             ok, blog = build_theories(timer)
             if not ok:
-                rep.problem("build", "Coq development (theories/gen) does not build: " + blog[-1500:], {}, "build")
+                failed = re.findall(r"\*\*\* \[[^\]]*?:\s*(\S+)\.vo\] Error", blog)
+                failed = [os.path.basename(f) for f in failed]
+                needed = getattr(mod, "THEORIES", None)
+                if needed is None or not failed or any(f in needed for f in failed):
+                    rep.problem("build", "Coq development (theories/gen) does not build: " + blog[-1500:], {}, "build")
+                else:
+                    C.log(f"[{pid}] note: unrelated theories fail to build: {failed}")
         C.log(f"[{pid}] build done {timer.s()}s")
         # 3. obligations
         ob = check_obligations(ctx, pid)
